@@ -29,6 +29,9 @@ type execResult struct {
 func execute(hist []int, tier string, verbose bool) (out explore.BFSOut, lines []string) {
 	evs := Events(tier)
 	w := World()
+	if len(hist) > 0 && hist[0] >= scriptedBase {
+		w = WorldScripted()
+	}
 	x, err := harness.StartRun(w)
 	if err != nil {
 		return explore.BFSOut{Err: "StartRun: " + err.Error()}, nil
@@ -52,12 +55,38 @@ func execute(hist []int, tier string, verbose bool) (out explore.BFSOut, lines [
 	for pos := 0; pos < total; pos++ {
 		var ev event
 		if pos < len(hist) {
-			if hist[pos] < 0 || hist[pos] >= len(evs) {
+			switch se := scriptedEvents(); {
+			case hist[pos] >= scriptedBase && hist[pos] < scriptedBase+len(se):
+				ev = se[hist[pos]-scriptedBase]
+			case hist[pos] < 0 || hist[pos] >= len(evs):
 				return explore.BFSOut{Err: fmt.Sprintf("event index %d out of range", hist[pos])}, lines
+			default:
+				ev = evs[hist[pos]]
 			}
-			ev = evs[hist[pos]]
 		} else {
 			ev = event{Name: "(quiet extension)"}
+		}
+		for k := 0; k < ev.Skip; k++ {
+			if _, err := x.BlockAt(harness.BlockSpec{}, false, nil); err != nil { // no state digest: the dump is taken once, after the stretch
+				return explore.BFSOut{Err: "chain halted in an empty stretch: " + err.Error()}, lines
+			}
+			if x.R.Dead {
+				m.violate("application-panicked", "block", "stage="+m.stage.String(), "the application closed itself (recovered panic) in an empty block")
+				break
+			}
+		}
+		if ev.Skip > 0 && !x.R.Dead {
+			// the whole empty stretch is judged as one step
+			mid, err := observe(x.C.Height, x.R.Dump())
+			if err != nil {
+				return explore.BFSOut{Err: err.Error()}, lines
+			}
+			m.log("height %d..%d: %d empty blocks", prev.Height+1, x.C.Height, ev.Skip)
+			m.step(x.C.Height, nil, nil, prev, mid)
+			prev = mid
+			if m.tainted {
+				break
+			}
 		}
 		h := x.C.Height + 1
 		var txs []*harness.TxSpec
@@ -174,6 +203,43 @@ func Main(args []string) int {
 	}
 	st := explore.RunBFS(cfg, rep)
 	st.Fill(rep)
+	// scripted histories (an option changes in the middle of the proposal's life): same executor, same model
+	scripted := ScriptedHistories()
+	var sjobs []interface{}
+	for _, h := range scripted {
+		sjobs = append(sjobs, explore.BFSJob{Hist: h, Tier: f.Tier})
+	}
+	scriptedRun, scriptedNontrivial := 0, int64(0)
+	scriptedInfo := map[string]int64{}
+	explore.RunJobs(prop, f.Workers, sjobs, 2*time.Minute, time.Time{}, nil, func(jr explore.JobResult) {
+		h := scripted[jr.Index]
+		var names []string
+		for _, e := range h {
+			names = append(names, scriptedEvents()[e-scriptedBase].Name)
+		}
+		if jr.Died || jr.Timeout {
+			st.HarnessErrors++
+			st.ErrSamples = append(st.ErrSamples, fmt.Sprintf("scripted %v: worker died", names))
+			return
+		}
+		var out explore.BFSOut
+		if err := json.Unmarshal(jr.Out, &out); err != nil || out.Err != "" {
+			st.HarnessErrors++
+			st.ErrSamples = append(st.ErrSamples, fmt.Sprintf("scripted %v: %s %v", names, out.Err, err))
+			return
+		}
+		scriptedRun++
+		scriptedNontrivial += out.Info["nontrivial_executions"]
+		for k, v := range out.Info {
+			if strings.HasPrefix(k, "blocks_not_judged") || strings.HasPrefix(k, "fired:") || strings.HasPrefix(k, "finalized_from") || strings.HasPrefix(k, "accepted:pct") {
+				scriptedInfo[k] += v
+			}
+		}
+		for _, v := range out.Viol {
+			rep.Violation(v.Sig+"|scripted", v.What+" (scripted history "+strings.Join(names, " ; ")+")", map[string]interface{}{"h": h, "history": names})
+		}
+	})
+	rep.Set("scripted_histories", map[string]interface{}{"what": "a second proposal lowers the pass percentage of configuration-update proposals from 67 to 51 while the proposal under test (created under 67, 66.7 % YES) is being voted on; then expiry / finalisation / further votes at every later point", "run": scriptedRun, "of": len(scripted), "nontrivial": scriptedNontrivial, "counters": scriptedInfo})
 	rep.Set("distinct_nontrivial", st.Info["nontrivial_executions"])
 	rep.Set("rule", "state = (height, proposal/vote/fund records, governance option records, OLT balances net of fees, validator and stake records) at a block boundary; transition = one whole block (0..2 transactions of the alphabet) executed on the real application by replaying the history from genesis on a fresh replica, the reference model of the statement compared with the committed state after EVERY block of the history and of "+fmt.Sprint(extensionBlocks)+" quiet blocks appended to it; non-trivial = an execution in which at least one antecedent of a model clause fired (a stage transition, a recorded vote, a refund, a distribution, a deadline refusal, a configuration change); every execution is a distinct history")
 	rep.Set("bounds", map[string]interface{}{
